@@ -13,6 +13,7 @@ package main
 
 import (
 	"bytes"
+	"encoding/base64"
 	"encoding/binary"
 	"encoding/json"
 	"fmt"
@@ -338,6 +339,9 @@ func run(prop, tier string) int {
 	// 1. build from the working tree
 	bins := map[bool]string{}
 	for _, u := range spec.Units {
+		if u.Fuzz != "" {
+			continue
+		}
 		if _, ok := bins[u.Race]; !ok {
 			b, err := build(u.Race, work)
 			if err != nil {
@@ -687,7 +691,133 @@ func crashCase(r procResult) string {
 	return out
 }
 
+// runFuzz runs a native go fuzz target for a bounded time. Go's fuzzer cannot
+// be pinned to a seed; the saved failing input is the reproducible unit. A
+// crasher is converted into a replay case and removed from testdata so that a
+// stale file can never poison a later run.
+func runFuzz(work, prop string, u unitSpec, exclude []string) procResult {
+	r := procResult{unit: u,
+		logfile:  filepath.Join(work, "log-"+u.Name+".txt"),
+		failfile: filepath.Join(work, "fail-"+u.Name+".json"),
+		stats:    filepath.Join(work, "stats-"+u.Name+".json"),
+	}
+	tdir := filepath.Join(root, "checks", "testdata", "fuzz", u.Fuzz)
+	os.RemoveAll(tdir)
+	if v, err := strconv.Atoi(os.Getenv("VERIF_FUZZTIME")); err == nil && v > 0 {
+		u.FuzzTimeS = v
+	}
+	args := []string{"test", "-tags", "verif", "-run", "^$", "-fuzz", "^" + u.Fuzz + "$", "-fuzztime", fmt.Sprintf("%ds", u.FuzzTimeS), "./checks"}
+	if repo := os.Getenv("VERIF_REPO"); repo != "" {
+		args = append(args[:3], append([]string{"-modfile", filepath.Join(work, "go.mod")}, args[3:]...)...)
+	}
+	cmd := exec.Command("go", args...)
+	cmd.Dir = root
+	cmd.Env = goEnv("VERIF_EXCLUDE=" + strings.Join(exclude, ","))
+	t0 := time.Now()
+	out, err := cmd.CombinedOutput()
+	r.dur = time.Since(t0)
+	os.WriteFile(r.logfile, out, 0o644)
+	// statistics from the fuzzer's own progress lines
+	var execs, interesting int64
+	for _, line := range strings.Split(string(out), "\n") {
+		if i := strings.Index(line, "execs: "); i >= 0 {
+			fmt.Sscanf(line[i:], "execs: %d", &execs)
+		}
+		if i := strings.Index(line, "new interesting: "); i >= 0 {
+			fmt.Sscanf(line[i:], "new interesting: %d", &interesting)
+		}
+	}
+	entries, _ := os.ReadDir(tdir)
+	if err != nil {
+		if len(entries) == 0 {
+			if ee, ok := err.(*exec.ExitError); ok {
+				r.exit = ee.ExitCode()
+			} else {
+				r.err = err
+			}
+			return r
+		}
+		// convert the crasher
+		b, _ := os.ReadFile(filepath.Join(tdir, entries[0].Name()))
+		var vals []string
+		for _, ln := range strings.Split(string(b), "\n") {
+			if strings.HasPrefix(ln, "string(") {
+				if s, e := strconv.Unquote(strings.TrimSuffix(strings.TrimPrefix(ln, "string("), ")")); e == nil {
+					vals = append(vals, s)
+				}
+			}
+			if strings.HasPrefix(ln, "byte(") {
+				if s, e := strconv.Unquote(strings.TrimSuffix(strings.TrimPrefix(ln, "byte("), ")")); e == nil && len(s) > 0 {
+					vals = append(vals, fmt.Sprint(int(s[0])))
+				} else if e == nil {
+					vals = append(vals, "0")
+				}
+			}
+		}
+		c := map[string]interface{}{"property": prop, "note": "native fuzz crasher " + entries[0].Name(), "got": firstFuzzFailure(string(out))}
+		if len(vals) > 0 {
+			c["expr"] = vals[0]
+			c["params"] = map[string]interface{}{"input_b64": b64(vals[0])}
+		}
+		switch u.Fuzz {
+		case "FuzzCompile":
+			c["check"] = "C06/total"
+			if len(vals) > 1 {
+				n, _ := strconv.Atoi(vals[1])
+				switch n % 4 {
+				case 1:
+					c["has_ns_map"] = true
+				case 2:
+					c["has_ns_map"] = true
+					c["ns_map"] = map[string]string{}
+				case 3:
+					c["has_ns_map"] = true
+					c["ns_map"] = map[string]string{"p": "u1"}
+				}
+			}
+		case "FuzzEval":
+			c["check"] = "C15/no-runtime-error"
+			c["doc"] = "<a x='1'><a>{2}</a><b>{t}</b><!--c--></a>"
+			if len(vals) > 1 {
+				n, _ := strconv.Atoi(vals[1])
+				c["ctx"] = n % 8
+			}
+		}
+		writeJSON(r.failfile, c)
+		os.RemoveAll(tdir)
+		r.exit = 1
+	}
+	os.RemoveAll(filepath.Join(root, "checks", "testdata"))
+	st := []map[string]interface{}{{
+		"property": prop, "unit": u.Name, "rule": "native go fuzzing of " + u.Fuzz + " for " + fmt.Sprint(u.FuzzTimeS) + " s (coverage-guided, not seedable); evaluations = executions, distinct non-trivial = inputs that increased coverage",
+		"evaluations": execs, "nontrivial": interesting, "labels": map[string]int64{"fuzz-execs": execs, "coverage-increasing-inputs": interesting},
+		"excluded_known": map[string]int64{}, "samples": []interface{}{}, "completed": true, "requested": execs,
+	}}
+	writeJSON(r.stats, st)
+	// the distinct count of a fuzz unit is the fuzzer's own count of coverage-increasing inputs
+	hb := make([]byte, 0, 8*interesting)
+	for i := int64(0); i < interesting; i++ {
+		hb = binary.LittleEndian.AppendUint64(hb, fnv64([]byte(u.Name))+uint64(i))
+	}
+	os.WriteFile(r.stats+"."+u.Name+".hashes", hb, 0o644)
+	return r
+}
+
+func b64(s string) string { return base64.StdEncoding.EncodeToString([]byte(s)) }
+
+func firstFuzzFailure(out string) string {
+	for _, l := range strings.Split(out, "\n") {
+		if strings.Contains(l, "VIOLATION") || strings.Contains(l, "panic:") || strings.Contains(l, "fatal error") {
+			return strings.TrimSpace(l)
+		}
+	}
+	return "fuzz target failed"
+}
+
 func runProc(bin, work, prop, tier string, sd int, u unitSpec, shard, shards int, exclude []string) procResult {
+	if u.Fuzz != "" {
+		return runFuzz(work, prop, u, exclude)
+	}
 	tag := fmt.Sprintf("%s-%d", u.Name, shard)
 	r := procResult{unit: u, shard: shard,
 		logfile:  filepath.Join(work, "log-"+tag+".txt"),
